@@ -61,6 +61,7 @@ import (
 	"github.com/goatcms/goatcore/app/modules/terminalm"
 	"github.com/goatcms/goatcore/app/scope"
 	"github.com/goatcms/goatcore/app/terminal"
+	"github.com/goatcms/goatcore/app/terminal/termexec"
 )
 
 // after the first hang of a process later task cases wait only this long without progress
@@ -77,6 +78,11 @@ type taskSpec struct {
 	nested bool // the body does not run the probe itself: it submits a nested task (pip:run) that does
 	fails  bool // the body ends with an error
 	group  int  // root scope the task is submitted on
+	// `ptasks`: the task is submitted by running the real command `pip:run --rlock=<rlist> --wlock=<wlist>`;
+	// rows is then what the property demands of these two lists (a name of the wlock list is held for writing,
+	// whether or not the rlock list names it too; every other name of the rlock list for reading)
+	cmd          bool
+	rlist, wlist string
 }
 
 func parseTaskSpecs(t string) ([]taskSpec, error) {
@@ -123,6 +129,136 @@ func parseTaskSpecs(t string) ([]taskSpec, error) {
 		res = append(res, sp)
 	}
 	return res, nil
+}
+
+// specRows: the lock map the two lists of a pip:run command stand for — the SPEC side: every name of the wlock
+// list read-write (a name that is in both lists was asked for write access), the other names of the rlock
+// list read-only.  Names in order of first occurrence (rlock list first).
+func specRows(rlist, wlist string) []row {
+	var rows []row
+	at := map[string]int{}
+	add := func(list string, write bool) {
+		if list == "" {
+			return
+		}
+		for _, n := range strings.Split(list, ",") {
+			if k, ok := at[n]; ok {
+				rows[k].write = rows[k].write || write
+				continue
+			}
+			at[n] = len(rows)
+			rows = append(rows, row{n, write})
+		}
+	}
+	add(rlist, false)
+	add(wlist, true)
+	return rows
+}
+
+var plainName = func(s string) bool {
+	if s == "" {
+		return false
+	}
+	for i, c := range s {
+		if !(c == '_' || (c >= 'a' && c <= 'z') || (c >= 'A' && c <= 'Z') || (i > 0 && c >= '0' && c <= '9')) {
+			return false
+		}
+	}
+	return true
+}
+
+// parsePTaskSpecs: `<waits>/<rlist>/<wlist>;…`, a list = `-` or `,`-separated plain names
+func parsePTaskSpecs(t string) ([]taskSpec, error) {
+	var res []taskSpec
+	for i, part := range strings.Split(strings.TrimSpace(t), ";") {
+		f := strings.Split(part, "/")
+		if len(f) != 3 {
+			return nil, fmt.Errorf("bad task %q", part)
+		}
+		sp := taskSpec{cmd: true}
+		if f[0] != "-" && f[0] != "" {
+			for _, w := range strings.Split(f[0], ",") {
+				n, err := strconv.Atoi(w)
+				if err != nil || n < 0 || n >= i {
+					return nil, fmt.Errorf("bad wait %q", w)
+				}
+				sp.waits = append(sp.waits, n)
+			}
+		}
+		for k, l := range f[1:] {
+			if l == "-" {
+				l = ""
+			}
+			if l != "" {
+				for _, n := range strings.Split(l, ",") {
+					if !plainName(n) {
+						return nil, fmt.Errorf("bad name %q", n)
+					}
+				}
+			}
+			if k == 0 {
+				sp.rlist = l
+			} else {
+				sp.wlist = l
+			}
+		}
+		sp.rows = specRows(sp.rlist, sp.wlist)
+		res = append(res, sp)
+	}
+	return res, nil
+}
+
+// namedInBoth: some task names a resource in both of its lists while another task names that resource too
+func namedInBoth(specs []taskSpec) bool {
+	for i, sp := range specs {
+		if sp.rlist == "" || sp.wlist == "" {
+			continue
+		}
+		for _, n := range strings.Split(sp.wlist, ",") {
+			in := false
+			for _, m := range strings.Split(sp.rlist, ",") {
+				in = in || m == n
+			}
+			if !in {
+				continue
+			}
+			for j, o := range specs {
+				if j != i {
+					for _, rw := range o.rows {
+						if rw.name == n {
+							return true
+						}
+					}
+				}
+			}
+		}
+	}
+	return false
+}
+
+func listText(l string) string {
+	if l == "" {
+		return "-"
+	}
+	return l
+}
+
+func ptaskSpecsText(specs []taskSpec) string {
+	parts := make([]string, len(specs))
+	for i, sp := range specs {
+		parts[i] = joinWaits(sp.waits) + "/" + listText(sp.rlist) + "/" + listText(sp.wlist)
+	}
+	return strings.Join(parts, ";")
+}
+
+// lockMapText renders a lock map as the implementation built it: rows sorted by name
+func lockMapText(lm map[string]bool) string {
+	var rows []row
+	for k, v := range lm {
+		rows = append(rows, row{k, v})
+	}
+	sort.Slice(rows, func(i, j int) bool { return rows[i].name < rows[j].name })
+	return rowsText(rows)
 }
 
 func taskSpecsText(specs []taskSpec) string {
@@ -433,6 +569,82 @@ func opTasks(specs []taskSpec, mode string, seed uint64) (res string, trace stri
 	}
 	cwd := mapp.Filespaces().CWD()
 	n := len(specs)
+	actual := make([]string, len(specs)) // ptasks: the lock map pip:run built, read back from the task
+	watch := func(i int, task pipservices.Task) {
+		go func() {
+			hx.Guard(func() { task.Wait() })
+			tc.mu.Lock()
+			tc.ended[i] = true
+			tc.events++
+			tc.mu.Unlock()
+		}()
+	}
+	// submitCmd: the task is created by the real `pip:run` command, run the way a script line is run
+	// (termexec.RunString: command scope, argument injection, pipc.Run, Runner.Run); the command returns only
+	// when its task has ended, so it runs on a goroutine of its own and the harness waits (generously) until
+	// the task exists in its manager.
+	submitCmd := func(i int, wait []string) error {
+		line := fmt.Sprintf(`pip:run --name=%s --silent=true --body="probe:cs --t=%d"`, taskName(i), i)
+		if specs[i].rlist != "" {
+			line += ` --rlock="` + specs[i].rlist + `"`
+		}
+		if specs[i].wlist != "" {
+			line += ` --wlock="` + specs[i].wlist + `"`
+		}
+		if len(wait) > 0 {
+			line += ` --wait="` + strings.Join(wait, ",") + `"`
+		}
+		root := roots[specs[i].group]
+		rctx := termexec.NewRunCtx(termexec.RunCtxParams{
+			Application: mapp,
+			Ctx:         gio.NewIOContext(root, mapp.IOContext().IO()),
+			Commands:    mapp.Terminal(),
+		})
+		errc := make(chan error, 1)
+		go func() {
+			var e error
+			if p, v := hx.Guard(func() { e = termexec.RunString(rctx, line) }); p {
+				e = fmt.Errorf("panic: %v", v)
+			}
+			errc <- e
+		}()
+		tm, terr := deps.TasksUnit.FromScope(root)
+		if terr != nil {
+			return terr
+		}
+		deadline := time.Now().Add(watchdog)
+		for spin := 0; ; spin++ {
+			if task, ok := tm.Get(taskName(i)); ok {
+				actual[i] = lockMapText(task.LockMap())
+				tc.mu.Lock()
+				tc.events++
+				tc.mu.Unlock()
+				watch(i, task)
+				return nil
+			}
+			select {
+			case e := <-errc:
+				if task, ok := tm.Get(taskName(i)); ok { // created and already over
+					actual[i] = lockMapText(task.LockMap())
+					watch(i, task)
+					return nil
+				}
+				if e == nil {
+					e = fmt.Errorf("pip:run returned without creating task %s", taskName(i))
+				}
+				return e
+			default:
+			}
+			if time.Now().After(deadline) {
+				return fmt.Errorf("pip:run did not create task %s", taskName(i))
+			}
+			if spin < 50 {
+				runtime.Gosched()
+			} else {
+				time.Sleep(50 * time.Microsecond)
+			}
+		}
+	}
 	submit := func(i int) error {
 		wait := make([]string, len(specs[i].waits))
 		for k, w := range specs[i].waits {
@@ -443,6 +655,9 @@ func opTasks(specs []taskSpec, mode string, seed uint64) (res string, trace stri
 			// what a body starts belongs to the body: the nested task (empty lock map of its own) runs under
 			// the lock map of task i, which is released only after the scope of the body has drained
 			body = "pip:run --name=c --silent=true --body=<<EOFX\n" + body + "\nEOFX"
+		}
+		if specs[i].cmd {
+			return submitCmd(i, wait)
 		}
 		var rerr error
 		if p, v := hx.Guard(func() {
@@ -624,6 +839,9 @@ func opTasks(specs []taskSpec, mode string, seed uint64) (res string, trace stri
 	}
 	if v := tc.exclBad.Load(); v != nil {
 		res += " excl:" + v.(string)
+	}
+	if len(specs) > 0 && specs[0].cmd {
+		res += " lm=" + strings.Join(actual, ";")
 	}
 	return res, tc.traceLine()
 }
@@ -816,6 +1034,91 @@ func genTasksRnd(r *hx.Rand) string {
 	return "tasks " + taskSpecsText(specs) + " | " + mode
 }
 
+// ptasksFamily: task sets submitted through `pip:run` in which a resource is named in BOTH lists of a task
+// (either list order inside the command is fixed by the command line; here: which list names it first, which
+// neighbours surround it) while another task holds it.  Under the deterministic controller task 0 is inside its
+// body when task 1 is submitted, so a "writer" that only got read access is caught inside with it.
+var ptasksFamily = []string{
+	"-/r/-;-/o,r/r",             // a reader of r inside; then rlock="o,r" wlock="r"
+	"-/r/r;-/r/-",               // rlock="r" wlock="r" inside; then a reader
+	"-/r,o/r;-/a,r/r,b",         // two tasks that both name r in both lists
+	"-/a,r,z/b,r;-/a,r/-;-/z/-", // names around it; the others read a and r / z
+	"-/r/a,r,z;-/r/-;-/-/z",     // r last in rlock, in the middle of wlock
+	"-/r,r/r;-/r/-",             // named twice in rlock
+	"-/a/-;-/r/-;0/a,r/r;-/r/-", // with a wait list: task 2 waits for task 0, task 1 reads r meanwhile
+	"-/a,b/-;-/b,a/a;-/b,a/b",   // both lists share two names, each task writes one of them
+	"-/-/r;-/r/r;-/r/-",         // plain writer, both-lists writer, reader
+	"-/r/-;-/r/-;-/r,o/o;-/o/o", // control: o in both lists, r only read: the readers share
+}
+
+func genPTasksAdv(k int) string {
+	return "ptasks " + ptasksFamily[k%len(ptasksFamily)] + " | adv"
+}
+
+// genPTasksRnd: 2-6 tasks over 1-3 names; every name a task writes is in its wlock list and, with probability
+// 1/2, in its rlock list as well (before, between or after the names it only reads); 1/3 of the tasks wait for an
+// earlier one; under the deterministic or the random controller.
+func genPTasksRnd(r *hx.Rand) string {
+	n := 2 + r.Intn(5)
+	np := 1 + r.Intn(3)
+	names := pool[:np]
+	writePct := []int{30, 50, 70}[r.Intn(3)]
+	specs := make([]taskSpec, n)
+	shuffle := func(l []string) string {
+		for j := len(l) - 1; j > 0; j-- {
+			x := r.Intn(j + 1)
+			l[j], l[x] = l[x], l[j]
+		}
+		return strings.Join(l, ",")
+	}
+	for i := range specs {
+		specs[i].cmd = true
+		if i > 0 && r.Intn(3) == 0 {
+			specs[i].waits = []int{r.Intn(i)}
+		}
+		var rl, wl []string
+		for _, row := range genMap(r, names, np, writePct) {
+			if row.write {
+				wl = append(wl, row.name)
+				if r.Intn(2) == 0 {
+					rl = append(rl, row.name)
+				}
+			} else {
+				rl = append(rl, row.name)
+			}
+		}
+		if r.Intn(3) == 0 { // a private name in one of the lists
+			if r.Intn(2) == 0 {
+				rl = append(rl, fmt.Sprintf("p%d", i))
+			} else {
+				wl = append(wl, fmt.Sprintf("p%d", i))
+			}
+		}
+		specs[i].rlist, specs[i].wlist = shuffle(rl), shuffle(wl)
+	}
+	mode := fmt.Sprintf("rnd %d", r.U64()%1000000)
+	if r.Intn(3) == 0 {
+		mode = "adv"
+	}
+	return "ptasks " + ptaskSpecsText(specs) + " | " + mode
+}
+
+// ptasksExpected: what a `ptasks` op must answer: every task ended with its body run, and the lock map each
+// task was created with is the one its two lists stand for (specRows)
+func ptasksExpected(op string) string {
+	specs, err := parsePTaskSpecs(strings.Fields(op)[1])
+	if err != nil {
+		return "bad-op"
+	}
+	maps := make([]string, len(specs))
+	for i, sp := range specs {
+		rows := append([]row(nil), sp.rows...)
+		sort.Slice(rows, func(a, b int) bool { return rows[a].name < rows[b].name })
+		maps[i] = rowsText(rows)
+	}
+	return "fin lm=" + strings.Join(maps, ";")
+}
+
 // tasksOracle: the adversarial family first (every variation), then n random cases; prints FAIL lines and
 // a summary like `oracle`.
 func tasksOracle(n int) {
@@ -823,14 +1126,22 @@ func tasksOracle(n int) {
 	r := hx.NewRand(hx.SeedFromEnv()*15485863 + 32452843)
 	out := bufio.NewWriter(os.Stdout)
 	defer out.Flush()
-	fails, cases, adv := 0, 0, 0
+	fails, cases, adv, ptasks, both := 0, 0, 0, 0, 0
 	run := func(op string) bool {
 		res, _ := runOp(op)
 		cases++
 		if strings.HasSuffix(op, "| adv") {
 			adv++
 		}
-		if res != "fin" {
+		want := "fin"
+		if strings.HasPrefix(op, "ptasks ") {
+			ptasks++
+			want = ptasksExpected(op)
+			if sp, err := parsePTaskSpecs(strings.Fields(op)[1]); err == nil && namedInBoth(sp) {
+				both++
+			}
+		}
+		if res != want {
 			fails++
 			fmt.Fprintf(out, "FAIL %s => %s\n", op, res)
 			out.Flush()
@@ -841,8 +1152,15 @@ func tasksOracle(n int) {
 	for k := 0; ok && k < advVariants; k++ {
 		ok = run(genTasksAdv(k))
 	}
-	for i := 0; ok && i < n; i++ {
-		ok = run(genTasksRnd(r))
+	for k := 0; ok && k < len(ptasksFamily); k++ {
+		ok = run(genPTasksAdv(k))
 	}
-	fmt.Fprintf(out, "oracle cases=%d fails=%d tasks=%d tasks_adv=%d\n", cases, fails, cases, adv)
+	for i := 0; ok && i < n; i++ {
+		if i%4 == 3 {
+			ok = run(genPTasksRnd(r))
+		} else {
+			ok = run(genTasksRnd(r))
+		}
+	}
+	fmt.Fprintf(out, "oracle cases=%d fails=%d tasks=%d tasks_adv=%d ptasks=%d ptasks_name_in_both_lists=%d\n", cases, fails, cases-ptasks, adv, ptasks, both)
 }
